@@ -557,6 +557,55 @@ func neutralTransform(src []byte, filename, kind string) ([]byte, int, error) {
 			}
 			return true
 		})
+	case "add-else":
+		// if c { …; return/break/continue } ; rest  →  if c { … } else { rest }   (the reverse of unelse; everywhere)
+		var wrap func(list []ast.Stmt) []ast.Stmt
+		hasLabel := func(list []ast.Stmt) bool {
+			found := false
+			for _, st := range list {
+				ast.Inspect(st, func(x ast.Node) bool {
+					if _, ok := x.(*ast.LabeledStmt); ok {
+						found = true
+					}
+					return true
+				})
+			}
+			return found
+		}
+		wrap = func(list []ast.Stmt) []ast.Stmt {
+			for i, st := range list {
+				ifs, ok := st.(*ast.IfStmt)
+				if !ok || ifs.Else != nil || len(ifs.Body.List) == 0 || i+1 >= len(list) {
+					continue
+				}
+				switch ifs.Body.List[len(ifs.Body.List)-1].(type) {
+				case *ast.ReturnStmt, *ast.BranchStmt:
+				default:
+					continue
+				}
+				rest := list[i+1:]
+				if hasLabel(rest) {
+					continue
+				}
+				ifs.Else = &ast.BlockStmt{List: wrap(append([]ast.Stmt{}, rest...))}
+				n++
+				return append(append([]ast.Stmt{}, list[:i]...), ifs)
+			}
+			return list
+		}
+		ast.Inspect(f, func(x ast.Node) bool {
+			switch v := x.(type) {
+			case *ast.FuncDecl:
+				if v.Body != nil && v.Type.Results == nil {
+					// a void function may fall off the end: fine either way
+				}
+			case *ast.BlockStmt:
+				v.List = wrap(v.List)
+			case *ast.CaseClause:
+				v.Body = wrap(v.Body)
+			}
+			return true
+		})
 	case "unelse":
 		// if [init;] c { …; return/break/continue/goto/panic } else { rest }  →  [init;] if c { … }; rest
 		// (what golint's indent-error-flow asks for). Applied to the site numbered onlySite (all sites when < 0).
@@ -664,7 +713,7 @@ func neutralTransform(src []byte, filename, kind string) ([]byte, int, error) {
 // a false alarm of the checker, since the transformation preserves behaviour).
 func runNeutral(repo, verif string, args []string) {
 	if len(args) < 2 {
-		fmt.Fprintln(os.Stderr, "usage: simdvet neutral <swap-eq|flip-rel|incdec|assign-op|var-decl|flip-else|unelse|reorder|errmsg|nop-stmt> <file.go>...")
+		fmt.Fprintln(os.Stderr, "usage: simdvet neutral <swap-eq|flip-rel|incdec|assign-op|var-decl|flip-else|unelse|add-else|reorder|errmsg|nop-stmt> <file.go>...")
 		os.Exit(2)
 	}
 	kind := args[0]
